@@ -215,3 +215,24 @@ PROPS["C02"] = {
     "compare_spec": c02_compare_spec,
     "nontrivial": lambda il, meta: any(l.startswith("E ") for l in il),
 }
+
+
+# ---------------------------------------------------------------- C03
+def c03_compare_model(il, ml, meta):
+    # the model's outcome (OK / PANIC / OUTOFFUEL) against the implementation's (OK / PANIC / OVERFLOW / TIMEOUT)
+    return bool(il) and bool(ml) and il[0] == ml[0]
+
+
+def c03_compare_spec(il, sl, meta, exempt):
+    # well-formed schema (the oracle section is EXEMPT otherwise): validation must return normally
+    return bool(il) and il[0] == "OK"
+
+
+PROPS["C03"] = {
+    "isolate": True,
+    "rule": "cycle-heavy documents: every fragment-spread graph on 1..3 fragments (all 2^(k*k) edge sets; nesting depth 0..4 under fields / inline fragments, reachable or not from the operation, with same-key noise fields), sampled 4-fragment graphs, the stack-overflow witness of DESIGN.md section 5 and relatives, name-pool random documents (wild / deep) on every pool schema, size-scaling towers of same-key fields; default plan and single-rule plans. Each case runs in a child process on an 8 MiB stack with a deadline of 2 s + 5 ms per document character; compared: normal return (OK) vs PANIC / OVERFLOW / TIMEOUT, against the model's outcome and (well-formed schema) against 'must return'. distinct = distinct (schema, document, plan); non-trivial = the document has a fragment cycle (NoFragmentsCycle fires under the default plan) or is larger than 400 characters",
+    "compare_model": c03_compare_model,
+    "compare_spec": c03_compare_spec,
+    "nontrivial": lambda il, meta: any(l.startswith("E NoFragmentsCycle") for l in il) or len(meta.get("doc", "")) > 400,
+    "partial": "real stack depth and wall-clock time are outside the model: the theorems give termination of the model (fuel bounds), the harness measures the implementation in child processes",
+}
